@@ -39,7 +39,7 @@ impl PosBucket {
         self.0.set(p)
     }
     pub fn reset(&self, now: Instant) {
-        self.0.reset(now)
+        let _ = self.0.reset(now);
     }
 }
 pub const POS_INTERVAL_NS: u64 = INTERVAL;
@@ -68,7 +68,7 @@ impl Est {
         Est(Estimator::new(now))
     }
     pub fn record(&mut self, steps: u64, now: Instant) {
-        self.0.record(steps, now)
+        let _ = self.0.record(steps, now);
     }
     pub fn reset(&mut self, now: Instant) {
         self.0.reset(now)
